@@ -1,0 +1,26 @@
+//go:build verif
+// +build verif
+
+package termincommittee
+
+import (
+	"github.com/orbs-network/lean-helix-go/services/interfaces"
+	"github.com/orbs-network/lean-helix-go/spec/types/go/primitives"
+)
+
+// VerifFlags returns the mutable protocol flags of the term (read-only, for state hashing).
+func (tic *TermInCommittee) VerifFlags() (preparedView int64, committed bool, latestViewThatProcessedVCMOrNVM uint64) {
+	preparedView = -1
+	if v, ok := tic.getPreparedLocally(); ok {
+		preparedView = int64(v)
+	}
+	return preparedView, tic.committedBlock != nil, uint64(tic.latestViewThatProcessedVCMOrNVM)
+}
+
+func (tic *TermInCommittee) VerifCommittee() []interfaces.CommitteeMember {
+	return tic.committeeMembers
+}
+
+func VerifLeaderOf(view primitives.View, committeeMembers []interfaces.CommitteeMember) primitives.MemberId {
+	return calcLeaderOfViewAndCommittee(view, committeeMembers)
+}
